@@ -403,7 +403,7 @@ def gen_one(rng, tier, prop, stream):
     return sc
 
 
-BUDGET = {"quick": 3000, "thorough": 24000, "search": 6000}
+BUDGET = {"quick": 3000, "thorough": 50000, "search": 6000}
 
 
 def gen(rng, tier, prop, streams):
